@@ -118,7 +118,7 @@ class LoadAscii:
     directed = staticmethod(_directed_files)
     qualname = LOAD
     case = 'CSEP1 file of C cells x M magnitude bins (magnitude fastest), any C, M >= 1; name given, swap_latlon False'
-    properties = ('C11',)
+    properties = ('C11', 'C20')
     swap = False
 
     def params(c):
